@@ -527,6 +527,9 @@ def run(chk):
     chk.clause("D4", "the input segments' own columns are unchanged (decided inside D1: stores go to a copy, new column names only)")
     d5(chk, prog)
     d5b(chk, prog)
+    chk.clause("CLI", "the `segmetrics` / `bintest` command lines: each statistic flag lands in its own list, alpha / bootstrap / smoothing / -t reach the statistics functions")
+    from .. import cliglue
+    cliglue.check_stats(chk, prog)
 
 
 _S = "cnvlib/segmetrics.py"
